@@ -9,6 +9,7 @@
                       unescaped `'` ends the word.
       NUL lists     : paths joined with a terminating NUL each, split by `xargs -0`. *)
 From Coq Require Import ZArith List Bool.
+From Copia Require Import Gen.Constants.
 Import ListNotations.
 Open Scope Z_scope.
 
@@ -78,4 +79,17 @@ Definition xargs0 (s : list Z) : list (list Z) := split_nul_aux [] s.
       cat > T && [ $(wc -c < T) -eq SIZE ] && mv -f T D && touch -d @MTIME D
     as a function of the bytes that ARRIVED on its input before the input ended:
     the staged bytes are published iff their count equals SIZE. *)
-Definition remote_push (size : Z) (arrived : list Z) : bool := Z.of_nat (length arrived) =? size.
+Definition remote_push (size : Z) (arrived : list Z) : bool :=
+  (* PUSH_FILE_VERIFIES_COUNT is regenerated from transfer.rs: 1 iff the `[ $(wc -c < T) -eq SIZE ]` link is in the command *)
+  if PUSH_FILE_VERIFIES_COUNT =? 1 then Z.of_nat (length arrived) =? size else true.
+
+(** the push delete command (incremental.rs::apply_remote_deletes, after the repair 297f20b):
+      t=$(mktemp) && cat > "$t" && [ "$(wc -c < "$t")" -eq SIZE ] && xargs -0 rm -f -- < "$t"; rm -f "$t"
+    as a function of the bytes that ARRIVED on its input before the input ended (the sender writes the list in
+    one or several write calls and may die between two of them): the paths handed to `rm`. *)
+Definition remote_delete (size : Z) (arrived : list Z) : list (list Z) :=
+  (* PUSH_DELETE_VERIFIES_COUNT is regenerated from incremental.rs: 1 iff the list is staged and its length compared *)
+  if PUSH_DELETE_VERIFIES_COUNT =? 1 then (if Z.of_nat (length arrived) =? size then xargs0 arrived else [])
+  else xargs0 arrived.
+(** before the repair: `xargs -0 rm -f --` ran directly on whatever arrived *)
+Definition remote_delete_unchecked (arrived : list Z) : list (list Z) := xargs0 arrived.
